@@ -52,6 +52,15 @@ FEEDER_PAIRS = [
     ('api/a38_generic_defaults.py', 'api/a39_Item_consumer.py'),
 ]
 
+# modules that differ only in the TYPE of equal-valued constants (2 vs 2.0, 1 vs True, 'x' vs b'x'): a cache or
+# table keyed by value equality replays one module's result for the other
+VARIANT_PAIRS = [
+    ('api/a51_fold_ints.py', 'api/a52_fold_floats.py'),
+    ('api/a52_fold_floats.py', 'api/a51_fold_ints.py'),
+    ('api/a53_literals_str.py', 'api/a54_literals_bytes.py'),
+    ('api/a54_literals_bytes.py', 'api/a53_literals_str.py'),
+]
+
 NAME_POOL = [
     'helper', 'other', 'foo', 'bar', 'value', 'result', 'item', 'T', 'U', 'K', 'Item', 'Rest', 'Params',
     'CONSTANT_VALUE', 'another_global', 'public_function', 'PublicClass', 'handler', 'self', 'cls', 'args',
